@@ -72,7 +72,7 @@ pub fn wire_bounds(tier: Tier) -> Value {
         "W0_raw_strings_up_to_octets": if tier.thorough() { 3 } else { 2 },
         "W1_flag_words": 65536,
         "W2_control_header": {"flag_alphabet": gen::flag_alphabet().len(), "length_choices": 12, "id_deviations": if tier.thorough() {2} else {1}, "truncation": "every point"},
-        "W3_single_record": {"attribute_numbers": gen::attr_alphabet().len(), "soft_deviation_bound": if tier.thorough() {3} else {2}, "first_two_octets_complete": tier.thorough()},
+        "W3_single_record": {"attribute_numbers": gen::attr_alphabet().len(), "soft_deviation_bound": if tier.thorough() {"none (full product)"} else {"3"}, "first_two_octets_complete": tier.thorough()},
         "W4_record_sequences": {"menu": gen::record_menu().len(), "max_len": if tier.thorough() {5} else {4}},
         "W5_data_messages": "16 LSOP subsets x 6 version/reserved variants x 10 Length x 7 offset-size x 4 payloads x 3 suffixes x every truncation point",
         "W6_size_extremes": "65535-octet control message, 10900 six-octet AVPs, 66 KiB bare AVP region, 65535/70000-octet data messages",
